@@ -64,6 +64,29 @@ claim("C14",
       "bounded: <=3/4 keys, <=4 topologies, degrees <=2/3; floats exact; inversion only under its stated precondition",
       "DESIGN.md 4/C14")
 
+claim("C01",
+      "the three generators (direct and through the factory) run on a symbolic joint degree sequence (handshake "
+      "precondition as solver constraint, forked at itertools.repeat) with random.shuffle replaced by a symbolic "
+      "permutation: per path ONE integer query proves for all n! shuffle outcomes that every vertex fills exactly "
+      "jds[v][k] slots, slots stay in 0..N-1, call counts/arity are right and the emitted edges are the callbacks' returns",
+      "bounded: N<=3 (quick) / 5 (thorough), entries <=2, <=3 columns, 16 motif configurations; handshake "
+      "precondition assumed; the network variant forks on the permutation (hashing) and is explored at N<=3/4",
+      "DESIGN.md 4/C01")
+claim("C02",
+      "same symbolic exploration as C01; on every path the three columns must be parallel, every entry a pair of "
+      "vertex terms, the rows of one motif id exactly one recorded callback return (solver equality of the vertex "
+      "terms for all shuffles), names per topology / per position incl. bare-edge and two-edge motifs",
+      "bounded as C01 (no network variant); callback conventions follow the repository's own custom-motif fixture",
+      "DESIGN.md 4/C02")
+claim("C03",
+      "uniformity is decided by (1) one full-length uniform primitive per column on its canonical stub list, (2) "
+      "solver proofs that arrangement -> slot sequence is well defined and injective (two symbolic permutations), (3) "
+      "independence of columns, (4) exact model counting over all permutations (blocking clauses) on small sequences "
+      "incl. the 8/8/8 perfect-matching example",
+      "trusts CPython's shuffle to be uniform; <=6 (quick) / 8 stubs per column for 1-3, <=5 stubs for the tallies; "
+      "generators randomising through real-valued draws are reported undecided",
+      "DESIGN.md 4/C03")
+
 
 def main():
     props = [json.loads(l)["id"] for l in open(os.path.join(ROOT, "properties.jsonl"))]
